@@ -130,9 +130,9 @@ pub fn check(ctx: &mut Ctx) {
     ];
     ctx.probe("C08-removeparam-not-serialized", json!({"rules": ["*$removeparam=utm"], "url": "https://example.com/p?utm=1&x=2"}), probe_removeparam());
     ctx.probe("C08-scriptlet-permission-not-serialized", json!({"rules": ["example.com##+js(perm)"], "list_permission": 3, "resource_permission": 1}), probe_permission());
-    let n = ctx.tier.pick(15_000, 600_000);
+    let n = ctx.tier.pick(150_000, 1_500_000);
     drive(ctx, "roundtrip", n, 1500, &decode, &check_case);
-    let (per, len) = ctx.tier.pick((2, 400), (12, 3000));
+    let (per, len) = ctx.tier.pick((3, 1200), (12, 4000));
     for c in real_list_slices(ctx, per, len) {
         crate::run::run_one(ctx, "real-lists", &c, &check_case);
     }
